@@ -206,8 +206,18 @@ def main():
     except ToolError as e:
         print("TOOL-ERROR:", e)
         return 2
-    with open(os.path.join(ROOT, "work", "selftest.json"), "w") as f:
-        json.dump(results, f, indent=1)
+    # keep the outcome of the groups that were not run this time
+    path = os.path.join(ROOT, "work", "selftest.json")
+    merged = {}
+    if os.path.exists(path):
+        try:
+            merged = {r["control"]: r for r in json.load(open(path))}
+        except (ValueError, KeyError, TypeError):
+            merged = {}
+    for r in results:
+        merged[r["control"]] = r
+    with open(path, "w") as f:
+        json.dump(sorted(merged.values(), key=lambda r: r["control"]), f, indent=1)
     bad = [r for r in results if not r["ok"]]
     print(f"selftest: {len(results) - len(bad)}/{len(results)} controls behave")
     return 1 if bad else 0
